@@ -71,5 +71,23 @@ PROPS["C06"] = dict(
     assumptions=["resolver timing is owned through yields, sleeps <=500us and bounded gates (30ms)", "reference executor is correct"],
 )
 
+PROPS["C05"] = dict(
+    pkg="c05", race=False, level="fault_enumeration", prepare="exec_projects", crash_is_violation=True,
+    projects_quick=[("core", ["v0", "w1", "w2", "w8"])],
+    projects_thorough=[("core", ["v0", "w1", "w2", "w8", "v1"])],
+    quick=dict(shards=16, timeout=1200), thorough=dict(shards=16, timeout=6000),
+    claim="cancellation-point enumeration: for every generated operation (with and without @defer, list fan-out) the request context "
+          "is cancelled before and after every k-th resolver call (with earlier resolvers released or held in flight), for "
+          "worker_limit 0/1/2/8; the response function must return once all resolvers have, and after the request ended no goroutine "
+          "with a gqlgen or generated frame may remain; hang and leak verdicts need a stable goroutine-dump witness (same goroutine "
+          "parked in the same frame in consecutive dumps), a mere timeout is reported as inconclusive (exit 2)",
+    note="cancellation points are exhaustive per operation, operations are sampled; bounded time is only refuted by deadlock witnesses; "
+         "the direct response function reads one payload, like a single-response HTTP transport",
+    technique="fault enumeration over cancellation points of rapid-generated operations; invariant oracle over goroutine dumps",
+    rule="evaluation = one execution with one cancellation point; non-trivial = cancellation point k>=1 in an operation with a composite "
+         "list of >=2 elements or with @defer; distinct by (query, plan seed, vector, k, before/after, hold)",
+    assumptions=["universal resolvers return promptly (bounded waits <= 30ms)", "a goroutine parked identically in 3 dumps over 500ms with no resolver running is stuck"],
+)
+
 # properties deliberately not claimed (reason); anything else missing from PROPS is "not built yet"
 NOT_CLAIMED = {}
